@@ -412,7 +412,20 @@ def auto(F, s, ctx):
             return slice_ok(F, f, bi, t, full)
         if "Index<usize>" in full or "IndexMut<usize>" in full:
             ok, why = index_in_bounds(f, bi, idx, coll)
-            return (True, why) if ok else (False, why)
+            if ok: return True, why
+            # v[p] with p = v.iter().position(..) of the same collection
+            ck = okey(f, coll)
+            for o in mir.trace_op(f, idx, transparent=mir.PASS_THROUGH):
+                if o.kind == "call" and ((mir.callee(o.fn.blocks[o.data]["t"]) or "").endswith("::position") or (mir.callee(o.fn.blocks[o.data]["t"]) or "").endswith("::rposition")):
+                    t2 = o.fn.blocks[o.data]["t"]
+                    for o2 in mir.trace_op(o.fn, t2[2][0], transparent=mir.TRANSPARENT + ("::iter", "IntoIterator>::into_iter", "::by_ref")):
+                        pass
+                    src = [o3 for o3 in mir.trace_op(o.fn, t2[2][0], transparent=())]
+                    for o3 in src:
+                        if o3.kind == "call" and (mir.callee(o3.fn.blocks[o3.data]["t"]) or "").endswith("::iter"):
+                            if okey(o3.fn, o3.fn.blocks[o3.data]["t"][2][0]) == ck or same_string(o3.fn, o3.fn.blocks[o3.data]["t"][2][0], ck):
+                                return True, "index returned by position() over the same collection"
+            return (False, why)
         return False, None
     if k in ("call:windows", "call:chunks", "call:chunks_exact", "call:rchunks"):
         n = mir.const_arg(f, t[2][1]) if len(t[2]) > 1 else None
@@ -496,7 +509,7 @@ def neg_operand(f, bi):
         if st[0] == "=" and st[2][0] == "bin" and st[2][1] == "Eq": return st[2][2]
     return None
 
-INDEX_SOURCES = ("Iterator::position", "Iterator::rposition", "::len", "Iterator::count", "core::str::<impl str>::find", "core::str::<impl str>::rfind", "::binary_search", "::get_index_of", "::get_full")
+INDEX_SOURCES = ("Iterator::position", "Iterator::rposition", "Iterator>::position", "Iterator>::rposition", "::len", "Iterator::count", "core::str::<impl str>::find", "core::str::<impl str>::rfind", "::binary_search", "::get_index_of", "::get_full")
 def collection_index(f, op, depth=0):
     """every origin of the operand is the result of position()/len()/count()/find() (possibly unwrapped with ?, ok_or, unwrap)"""
     os = mir.trace_op(f, op, transparent=mir.PASS_THROUGH + ("Option::<T>::ok_or_else", "Option::<T>::ok_or", "as std::ops::Try>::branch", "Option::<T>::unwrap_or"))
@@ -579,6 +592,12 @@ def const_strings(F, f, op, cg, depth=0):
             if not sites: return None
             for g, bi in sites:
                 sub = const_strings(F, g, g.blocks[bi]["t"][2][o.data - 1], cg, depth + 1)
+                if sub is None: return None
+                out |= sub
+        elif o.kind == "agg" and depth < 4:
+            rv = mir.rv_at(o.fn, *o.data)
+            for a in rv[2]:
+                sub = const_strings(F, o.fn, a, cg, depth + 1)
                 if sub is None: return None
                 out |= sub
         elif o.kind == "call" and depth < 3 and F.fn(mir.callee(o.fn.blocks[o.data]["t"]) or "") is not None:
